@@ -6,8 +6,19 @@
   Where the pinned code violates it, `…_counterexample : ¬ …_Full` exhibits the witness of the
   findings entry (evaluated by the kernel with `rfl`; the same witness is replayed on the real code
   on every run), and `…_partial` proves the clause on an explicitly delimited fragment.
+
+  Delimiting predicates (all decidable, defined next to their proofs):
+  * `frag` (PgProofs/Typing.lean) — idempotence / default: leaves, lists, tuples, schema-less dict;
+    `simpleUnion` + `fragList` (PgProofs/TypingUnion.lean) — unions of such leaves;
+  * `CompatOk a b` (PgProofs/TypingCompat.lean) — `C04_compat_partial`, mutual induction on `a`;
+    `CompatOkUnion cands f b` (PgProofs/TypingUnion.lean) — `C04_compat_partial_union`;
+  * `ExtOk child base` (PgProofs/TypingExtend.lean) — `C04_extend_partial`: the extension lands in
+    `CompatOk base c'` with `isCompatible base c'`, containment then follows from compatibility.
+  `C04_*_exclusion_*` show, conjunct by conjunct, that the predicates exclude nothing gratuitous.
 -/
 import PgProofs.Typing
+import PgProofs.TypingExtend
+import PgProofs.TypingUnion
 namespace Pg.Typing
 
 /-- Environment of the counterexamples: classes 0 ⊃ 1, every regex matches. -/
@@ -39,6 +50,24 @@ theorem C04_idem_counterexample : ¬ C04_idem_Full := by
     false (.bool true) = .error .value := by rfl
   rw [e] at this
   cases this
+
+/-- **Idempotence for simple unions** (PgProofs/TypingUnion.lean): a `Union` (any flags, frozen or
+not) whose candidates are non-frozen leaves of pairwise disjoint value types (`simpleUnion`) drawn
+from the fragment — the dispatch of `Union._apply` is then a function of the value's type, and the
+candidate's result has the type it was routed by. -/
+theorem C04_idem_partial_union (env : Env) (cands : List Spec) (f : Flags)
+    (hs : simpleUnion cands = true) (hfr : fragList cands = true) (p : Bool) (v v' : Val)
+    (h : apply env (.union cands f) p v = .ok v') : apply env (.union cands f) p v' = .ok v' :=
+  apply_idem_union env cands f hs hfr p v v' h
+
+/-- The F47 witness lies outside `simpleUnion` (frozen candidates, and `Bool` / `Int` overlap). -/
+theorem C04_idem_exclusion_F47 :
+    simpleUnion [.bool ⟨false, .bool false, true⟩, .int none none ⟨false, .bool true, true⟩] = false ∧
+    candOk (.int none none ⟨false, .bool true, true⟩) = false ∧
+    simpleUnion [.str none F0, .int none none F0] = true := by decide
+
+example : apply env0 (.union [.float none none F0, .list (.str none F0) 0 none F0] ⟨true, .missing, false⟩) false (.int 1)
+    = .ok (.float ⟨1, 0⟩) := by rfl
 
 /-! ## 2. A spec's own default is acceptable; applying never changes the spec -/
 
@@ -87,6 +116,25 @@ theorem C04_default (env : Env) (s s' : Spec) (hs : frag s = true) (d0 : Val)
       cases s <;> rfl
     rw [e2, apply_setFlags_default env _ d (by cases s <;> rfl)]
     exact hi
+
+/-- Default acceptability for simple unions of fragment candidates. -/
+theorem C04_default_union (env : Env) (cands : List Spec) (f : Flags) (hs : simpleUnion cands = true)
+    (hfr : fragList cands = true) (s' : Spec) (d0 : Val)
+    (h : setDefault env (.union cands f) d0 = .ok s') :
+    apply env s' true s'.flags.default = .ok s'.flags.default := by
+  unfold setDefault at h
+  simp only [Spec.setFlags, Spec.flags] at h
+  cases hd : apply env (.union cands { f with default := .missing, frozen := false }) true d0 with
+  | error e => simp [hd] at h
+  | ok d =>
+    simp only [hd] at h
+    injection h with h; subst h
+    have hi := apply_idem_union env cands _ hs hfr true d0 d hd
+    have := apply_setFlags_default env (.union cands { f with default := .missing, frozen := false }) d rfl true d
+    simp only [Spec.setFlags, Spec.flags] at this ⊢
+    rw [this]; exact hi
+
+example : ∃ s', setDefault env0 (.union [.float none none F0, .str none F0] F0) (.int 1) = .ok s' := ⟨_, rfl⟩
 
 /-- … and the same after `freeze()`: a frozen spec accepts its own default. -/
 theorem C04_default_frozen (env : Env) (s : Spec) (p : Bool) (hf : s.flags.frozen = true) :
@@ -154,9 +202,6 @@ theorem C04_compat_F09c_repaired :
       (.union [.int none none F0, .str none F0] ⟨true, .missing, false⟩) = false := by
   rfl
 
-theorem Num.lt_ofInt (a b : Int) : Num.lt (Num.ofInt a) (Num.ofInt b) = decide (a < b) := by
-  simp [Num.lt, Num.ofInt]
-
 theorem Num.lt_ofInt' (a b : Int) : Num.lt ⟨a, 0⟩ (Num.ofInt b) = decide (a < b) := by
   simp [Num.lt, Num.ofInt]
 
@@ -193,23 +238,6 @@ theorem outOfRange_mono_int (lo hi olo ohi : Option Int) (n : Int)
         simp only [Option.map_some, Num.lt_ofInt, Num.lt_ofInt'', Bool.not_eq_true', decide_eq_false_iff_not] at h2 v2 ⊢
         omega
 
-/-- What a non-frozen `Int` spec accepts. -/
-theorem accepts_int (env : Env) (lo hi : Option Int) (f : Flags) (hf : f.frozen = false) (v : Val) :
-    accepts env (.int lo hi f) v =
-      match v with
-      | .none => f.noneable
-      | .int i => !outOfRange (lo.map Num.ofInt) (hi.map Num.ofInt) ⟨i, 0⟩
-      | .bool b => !outOfRange (lo.map Num.ofInt) (hi.map Num.ofInt) ⟨if b then 1 else 0, 0⟩
-      | _ => false := by
-  cases v <;>
-    simp [accepts, apply, gate, hf, Val.isMissing, Val.isNone, typeCheck, instOf, Val.ty, Ty.sub, convert,
-      isOk, bind, Except.bind, rangeCheck, Val.num?]
-  · cases f.noneable <;> simp [isOk]
-  · rename_i b
-    cases outOfRange (lo.map Num.ofInt) (hi.map Num.ofInt) ⟨if b then 1 else 0, 0⟩ <;> rfl
-  · rename_i i
-    cases outOfRange (lo.map Num.ofInt) (hi.map Num.ofInt) ⟨i, 0⟩ <;> rfl
-
 /-- Integer range specs (any bounds, any noneable / default flags on either side, both
 non-frozen): compatibility is sound for every value.  Excluded: a frozen receiver (`hf'`, F09) and
 a frozen other spec (`hb`, F40). -/
@@ -235,6 +263,120 @@ theorem C04_compat_partial_int (env : Env) (lo hi olo ohi : Option Int) (f g : F
       simp only [Bool.not_eq_true'] at hv ⊢
       simp [outOfRange_mono_int lo hi olo ohi _ hr (by simpa using hv)]
     | _ => simp at hv
+
+/-- **Compatibility is sound on `CompatOk`** (PgProofs/TypingCompat.lean), by mutual structural
+induction on the receiver: for every class environment with a transitive subclass relation, all
+specs `a`, `b` with `CompatOk a b` — `Any`, `Bool`, `Int` / `Float` ranges, `Str`, `Enum`, `List`,
+fixed and variable `Tuple`, schema-less `Dict`, `Dict` with a constant-key schema, `Object`, nested
+to any depth, any noneable / default flags — and every value.  `CompatOk` is the explicit decidable conjunction of the
+exclusions; each conjunct is forced by a finding (theorems `C04_compat_exclusion_*` below). -/
+theorem C04_compat_partial (env : Env) (ht : SubTrans env) (a b : Spec) (hok : CompatOk a b = true)
+    (hc : isCompatible env a b = true) (v : Val) (hv : accepts env b v = true) :
+    accepts env a v = true :=
+  compat_sound env ht a b hok hc v hv
+
+/-- `env0` has a transitive subclass relation. -/
+theorem env0_trans : SubTrans env0 := by
+  intro a b c h1 h2
+  simp only [env0, Bool.or_eq_true, Bool.and_eq_true, beq_iff_eq] at *
+  omega
+
+/-! Each conjunct of `CompatOk` is needed: at the witness of the finding the pair is compatible,
+the other spec accepts the value, the receiver rejects it, and exactly the named conjunct fails. -/
+
+/-- receiver not frozen (F09). -/
+theorem C04_compat_exclusion_F09 :
+    let a : Spec := .int none none ⟨false, .int 1, true⟩; let b : Spec := .int none none F0
+    CompatOk a b = false ∧ CompatOk (a.setFlags F0) b = true ∧ isCompatible env0 a b = true ∧
+      accepts env0 b (.int 2) = true ∧ accepts env0 a (.int 2) = false := by decide
+
+/-- other side not frozen (F40). -/
+theorem C04_compat_exclusion_F40 :
+    let a : Spec := .int none none F0; let b : Spec := .int none none ⟨false, .int 2, true⟩
+    CompatOk a b = false ∧ CompatOk a (b.setFlags F0) = true ∧ isCompatible env0 a b = true ∧
+      accepts env0 b (.float ⟨2, 0⟩) = true ∧ accepts env0 a (.float ⟨2, 0⟩) = false := by decide
+
+/-- a frozen other side also accepts `MISSING_VALUE` (returns its default), `Any()` does not. -/
+theorem C04_compat_exclusion_frozen_missing :
+    let a : Spec := .any ⟨true, .missing, false⟩; let b : Spec := .int none none ⟨false, .int 2, true⟩
+    CompatOk a b = false ∧ isCompatible env0 a b = true ∧
+      accepts env0 b .missing = true ∧ accepts env0 a .missing = false := by decide
+
+/-- `Enum`/`Enum`: same candidate value type (F41). -/
+theorem C04_compat_exclusion_F41 :
+    let a : Spec := .enum [.int 1, .int 2] F0; let b : Spec := .enum [.float ⟨1, 0⟩, .float ⟨2, 0⟩] F0
+    CompatOk a b = false ∧ enumVT [.int 1, .int 2] ≠ enumVT [.float ⟨1, 0⟩, .float ⟨2, 0⟩] ∧
+      isCompatible env0 a b = true ∧
+      accepts env0 b (.float ⟨1, 0⟩) = true ∧ accepts env0 a (.float ⟨1, 0⟩) = false := by decide
+
+/-- `List`/`List`: the receiver's `min_size` must not be larger (F09b). -/
+theorem C04_compat_exclusion_F09b :
+    let a : Spec := .list (.int none none F0) 2 none F0; let b : Spec := .list (.int none none F0) 0 none F0
+    CompatOk a b = false ∧ CompatOk (.list (.int none none F0) 0 none F0) b = true ∧
+      isCompatible env0 a b = true ∧
+      accepts env0 b (.list []) = true ∧ accepts env0 a (.list []) = false := by decide
+
+/-- `Str`: a receiver regex the other side does not have (regexes are outside the claim; here with
+an environment whose only regex matches nothing). -/
+theorem C04_compat_exclusion_regex :
+    let env : Env := ⟨fun a b => a == b, fun _ _ => false⟩
+    let a : Spec := .str (some 0) F0; let b : Spec := .str none F0
+    CompatOk a b = false ∧ CompatOk b b = true ∧ isCompatible env a b = true ∧
+      accepts env b (.str "x") = true ∧ accepts env a (.str "x") = false := by decide
+
+/-- An `Any` receiver must be noneable (`Any.__init__` enforces it). -/
+theorem C04_compat_exclusion_any :
+    let a : Spec := .any F0; let b : Spec := .int none none ⟨true, .missing, false⟩
+    CompatOk a b = false ∧ isCompatible env0 a b = true ∧
+      accepts env0 b .none = true ∧ accepts env0 a .none = false := by decide
+
+/-- `Dict` with schema: a shared field of the other side must not carry a default (F42). -/
+theorem C04_compat_exclusion_F42 :
+    let a : Spec := .dict (some [.mk (.const "x") (.int none none F0)]) ⟨false, .dict [("x", .missing)], false⟩
+    let b : Spec := .dict (some [.mk (.const "x") (.int none none ⟨false, .int 1, false⟩)]) ⟨false, .dict [("x", .int 1)], false⟩
+    let b0 : Spec := .dict (some [.mk (.const "x") (.int (some 0) none F0)]) ⟨false, .dict [("x", .missing)], false⟩
+    CompatOk a b = false ∧ CompatOk a b0 = true ∧ isCompatible env0 a b = true ∧
+      accepts env0 b (.dict []) = true ∧ accepts env0 a (.dict []) = false := by decide
+
+/-- **Compatibility is sound for `Union` receivers on `CompatOkUnion`** (PgProofs/TypingUnion.lean):
+non-frozen candidates that are leaves (no `Any` / `Enum` / nested `Union`) of pairwise disjoint
+value types — so that `Union._apply` routes every value to the one candidate that can accept it —
+against any non-union `b` that is in `CompatOk` with the candidates of its class. -/
+theorem C04_compat_partial_union (env : Env) (ht : SubTrans env) (cands : List Spec) (f : Flags)
+    (b : Spec) (hok : CompatOkUnion cands f b = true)
+    (hc : isCompatible env (.union cands f) b = true) (v : Val) (hv : accepts env b v = true) :
+    accepts env (.union cands f) v = true :=
+  compat_sound_union env ht cands f b hok hc v hv
+
+/-- The disjointness conjunct is needed (F43): `Float` and `Int` candidates overlap on ints (the
+int→float converter), and with the `Int` candidate removed the pair is inside the class. -/
+theorem C04_compat_exclusion_F43 :
+    let b : Spec := .float none none F0
+    CompatOkUnion [.float none none F0, .int none (some 1) F0] F0 b = false ∧
+    simpleUnion [.float none none F0, .int none (some 1) F0] = false ∧
+    CompatOkUnion [.float none none F0, .str none F0] F0 b = true ∧
+    isCompatible env0 (.union [.float none none F0, .int none (some 1) F0] F0) b = true ∧
+    accepts env0 b (.int 2) = true ∧
+    accepts env0 (.union [.float none none F0, .int none (some 1) F0] F0) (.int 2) = false := by decide
+
+example : accepts env0 (.union [.float (some ⟨0, 0⟩) none F0, .str none F0] F0) (.int 2) = true :=
+  C04_compat_partial_union env0 env0_trans _ _ (.float (some ⟨1, 0⟩) none F0) (by decide) (by decide) _ (by decide)
+
+/-- Environment in which every regular expression matches every string. -/
+def envR : Env := ⟨fun a b => a == b, fun _ _ => true⟩
+
+/-- NEW (found while delimiting `CompatOk`; not covered by F09–F47; replayed on the real code):
+dynamic keys are dispatched to the *first* matching `StrKey` in declaration order
+(class_schema.py `Schema.resolve`), while `Schema.is_compatible` compares the fields key by key.
+`Dict([(StrKey('a.*'), Int()), (StrKey('.*b'), Str())])` is compatible with the same schema in the
+other order; the latter accepts `{'ab': 'x'}`, the former raises TypeError. -/
+theorem C04_compat_counterexample_keyorder : ¬ C04_compat_Full := by
+  intro h
+  have := h envR
+    (.dict (some [.mk (.strKey (some 0)) (.int none none F0), .mk (.strKey (some 1)) (.str none F0)]) ⟨false, .dict [], false⟩)
+    (.dict (some [.mk (.strKey (some 1)) (.str none F0), .mk (.strKey (some 0)) (.int none none F0)]) ⟨false, .dict [], false⟩)
+    (.dict [("ab", .str "x")]) (by rfl) (by rfl)
+  revert this; decide
 
 /-! ## 4. Extension only narrows -/
 
@@ -264,6 +406,82 @@ theorem C04_extend_counterexample_F46 : ¬ C04_extend_Full := by
     (.tuple [.int none none F0] 2 (some 2) F0) (.tuple [.int 1]) (by rfl)).1 (by rfl)
   revert this; decide
 
+
+theorem ExtOk_flags (child base : Spec) (h : ExtOk child base = true) :
+    child.flags.frozen = false ∧ base.isUnion = false := by
+  cases child <;> simp only [ExtOk, Bool.and_eq_true, Bool.not_eq_true', Bool.false_eq_true] at h <;>
+    refine ⟨h.1, ?_⟩ <;> cases base <;> simp_all [Spec.isUnion]
+
+/-- For a non-frozen child the returned spec is the (mutated) child. -/
+theorem extend_eq_extendSelf (env : Env) (child base : Spec) (hok : ExtOk child base = true) :
+    extend env child base = extendSelf env child base := by
+  obtain ⟨hcf, hbu⟩ := ExtOk_flags child base hok
+  unfold extend
+  cases hpre : extendPre env child base with
+  | error e => cases child <;> rw [extendSelf, hpre]
+  | ok r =>
+    obtain ⟨_, hr⟩ := extendPre_ok env child base r hcf hbu hpre
+    split at hr
+    · subst hr; rfl
+    · rw [hr.1]
+
+/-- **Extension only narrows, on `ExtOk`** (PgProofs/TypingExtend.lean), by mutual structural
+induction on the child: if `child.extend(base)` succeeds with result `c'` then every value `c'`
+accepts is accepted by `base`, and `base.is_compatible(c')`.  Covered: non-frozen children of class
+`Any`, `Bool`, `Int` and `Float` ranges (all bound combinations, exact dyadic floats), `Str`,
+`Enum` over `Enum`, `List` (element, `min_size`, `max_size`), fixed / variable `Tuple` in all four
+combinations, schema-less `Dict`, `Object` (any transitive class environment), each over a base of
+the same class or a noneable `Any`, nested to any depth, any noneable / default flags. -/
+theorem C04_extend_partial (env : Env) (ht : SubTrans env) (child base c' : Spec)
+    (hok : ExtOk child base = true) (h : extend env child base = .ok c') :
+    (∀ v, accepts env c' v = true → accepts env base v = true) ∧ isCompatible env base c' = true := by
+  rw [extend_eq_extendSelf env child base hok] at h
+  obtain ⟨h1, h2⟩ := extend_ok env child base c' hok h
+  exact ⟨fun v hv => compat_sound env ht base c' h2 h1 v hv, h1⟩
+
+/-- The nested form (what `List` / `Tuple` / `Field.extend` keep of an element extension). -/
+theorem C04_extendSelf_partial (env : Env) (ht : SubTrans env) (child base c' : Spec)
+    (hok : ExtOk child base = true) (h : extendSelf env child base = .ok c') :
+    (∀ v, accepts env c' v = true → accepts env base v = true) ∧ isCompatible env base c' = true ∧
+      CompatOk base c' = true := by
+  obtain ⟨h1, h2⟩ := extend_ok env child base c' hok h
+  exact ⟨fun v hv => compat_sound env ht base c' h2 h1 v hv, h1, h2⟩
+
+/-! Each conjunct of `ExtOk` is needed. -/
+
+/-- child not frozen (F44). -/
+theorem C04_extend_exclusion_F44 :
+    let child : Spec := .int none none ⟨false, .int 5, true⟩; let base : Spec := .int none (some 3) F0
+    ExtOk child base = false ∧ ExtOk (child.setFlags F0) base = true ∧
+      (∃ c', extend env0 child base = .ok c' ∧ accepts env0 c' (.int 5) = true) ∧
+      accepts env0 base (.int 5) = false := by
+  refine ⟨by decide, by decide, ⟨_, rfl, by decide⟩, by decide⟩
+
+/-- `Enum` only over an `Enum` base (F45). -/
+theorem C04_extend_exclusion_F45 :
+    let child : Spec := .enum [.int 1, .int 2] ⟨false, .int 1, false⟩; let base : Spec := .int none none F0
+    ExtOk child base = false ∧
+      (∃ c', extend env0 child base = .ok c' ∧ isCompatible env0 base c' = false) := by
+  refine ⟨by decide, ⟨_, rfl, by decide⟩⟩
+
+/-- variable `Tuple` over variable `Tuple`: the merged sizes must not be equal (F46). -/
+theorem C04_extend_exclusion_F46 :
+    let child : Spec := .tuple [.int none none F0] 0 (some 2) F0
+    let base : Spec := .tuple [.int none none F0] 2 none F0
+    ExtOk child base = false ∧ ExtOk (.tuple [.int none none F0] 0 (some 3) F0) base = true ∧
+      (∃ c', extend env0 child base = .ok c' ∧ accepts env0 c' (.tuple [.int 1]) = true) ∧
+      accepts env0 base (.tuple [.int 1]) = false := by
+  refine ⟨by decide, by decide, ⟨_, rfl, by decide⟩, by decide⟩
+
+/-- `Str`: two different regexes (outside the claim): the child keeps its own. -/
+theorem C04_extend_exclusion_regex :
+    let env : Env := ⟨fun a b => a == b, fun r _ => r == 1⟩
+    let child : Spec := .str (some 1) F0; let base : Spec := .str (some 0) F0
+    ExtOk child base = false ∧
+      (∃ c', extend env child base = .ok c' ∧ accepts env c' (.str "x") = true) ∧
+      accepts env base (.str "x") = false := by
+  refine ⟨by decide, ⟨_, rfl, by decide⟩, by decide⟩
+
 /-! Non-vacuity of the hypotheses. -/
 example : frag (.list (.tuple [.int (some 0) (some 3) F0, .str none ⟨true, .none, false⟩] 2 (some 2) F0) 1 none F0) = true := by rfl
 example : apply env0 (.list (.float (some ⟨1, 1⟩) none F0) 1 none F0) false (.list [.int 1]) = .ok (.list [.float ⟨1, 0⟩]) := by rfl
@@ -271,5 +489,38 @@ example : isCompatible env0 (.int (some 0) none F0) (.int (some 1) (some 5) F0) 
 example : accepts env0 (.int (some 1) (some 5) F0) (.int 3) = true := by rfl
 example : ∃ s', setDefault env0 (.float none none F0) (.int 1) = .ok s' := ⟨_, rfl⟩
 example : extend env0 (.int (some 1) none F0) (.int (some 0) (some 9) F0) = .ok (.int (some 1) (some 9) F0) := by rfl
+
+
+/-! Non-vacuity of `C04_compat_partial` / `C04_extend_partial`: nested witnesses inside the classes,
+with the conclusion instantiated. -/
+def exA : Spec := .list (.tuple [.float (some ⟨1, 1⟩) none ⟨true, .missing, false⟩, .obj 0 F0] 2 (some 2) F0) 0 (some 5) F0
+def exB : Spec := .list (.tuple [.float (some ⟨3, 2⟩) (some ⟨9, 0⟩) F0, .obj 1 F0] 2 (some 2) F0) 1 (some 3) F0
+example : CompatOk exA exB = true ∧ isCompatible env0 exA exB = true := by decide
+example : accepts env0 exB (.list [.tuple [.int 2, .obj 1 7 false]]) = true := by decide
+example : accepts env0 exA (.list [.tuple [.int 2, .obj 1 7 false]]) = true :=
+  C04_compat_partial env0 env0_trans exA exB (by decide) (by decide) _ (by decide)
+example : CompatOk (.enum [.int 1, .int 2, .int 3] F0) (.enum [.bool true, .int 2] F0) = true ∧
+    isCompatible env0 (.enum [.int 1, .int 2, .int 3] F0) (.enum [.bool true, .int 2] F0) = true := by decide
+example : CompatOk (.tuple [.int none none F0] 1 none F0) (.tuple [.int (some 0) none F0, .int (some 5) (some 6) F0] 2 (some 2) F0) = true ∧
+    isCompatible env0 (.tuple [.int none none F0] 1 none F0) (.tuple [.int (some 0) none F0, .int (some 5) (some 6) F0] 2 (some 2) F0) = true := by decide
+
+def exDA : Spec := .dict (some [.mk (.const "x") (.int none none ⟨true, .int 0, false⟩), .mk (.const "y") (.list (.str none F0) 0 none F0)]) ⟨false, .missing, false⟩
+def exDB : Spec := .dict (some [.mk (.const "y") (.list (.str none F0) 1 (some 2) F0), .mk (.const "x") (.int (some 1) none F0)]) ⟨false, .missing, false⟩
+example : CompatOk exDA exDB = true ∧ isCompatible env0 exDA exDB = true := by decide
+example : accepts env0 exDB (.dict [("x", .int 3), ("y", .list [.str "a"])]) = true := by decide
+example : accepts env0 exDA (.dict [("x", .int 3), ("y", .list [.str "a"])]) = true :=
+  C04_compat_partial env0 env0_trans exDA exDB (by decide) (by decide) _ (by decide)
+
+def exChild : Spec := .list (.tuple [.float (some ⟨3, 2⟩) none F0] 0 (some 4) F0) 2 none ⟨false, .list [], false⟩
+def exBase : Spec := .list (.tuple [.float (some ⟨1, 1⟩) (some ⟨9, 0⟩) ⟨true, .missing, false⟩] 1 none F0) 1 (some 3) ⟨true, .missing, false⟩
+example : ExtOk exChild exBase = true := by decide
+example : extend env0 exChild exBase =
+    .ok (.list (.tuple [.float (some ⟨3, 2⟩) (some ⟨9, 0⟩) F0] 1 (some 4) F0) 2 (some 3) ⟨false, .list [], false⟩) := by rfl
+example : ExtOk (.tuple [.int (some 1) none F0, .int none (some 9) F0] 2 (some 2) F0) (.tuple [.int none none ⟨true, .missing, false⟩] 1 (some 2) F0) = true ∧
+    isOk (extend env0 (.tuple [.int (some 1) none F0, .int none (some 9) F0] 2 (some 2) F0) (.tuple [.int none none ⟨true, .missing, false⟩] 1 (some 2) F0)) = true := by decide
+example : ExtOk (.enum [.int 1] F0) (.enum [.int 1, .bool false] F0) = true ∧
+    isOk (extend env0 (.enum [.int 1] F0) (.enum [.int 1, .bool false] F0)) = true := by decide
+example : ExtOk (.obj 1 F0) (.obj 0 ⟨true, .missing, false⟩) = true ∧
+    isOk (extend env0 (.obj 1 F0) (.obj 0 ⟨true, .missing, false⟩)) = true := by decide
 
 end Pg.Typing
